@@ -98,8 +98,21 @@ func (b Branch) MedianTimeAndWork(ctx context.Context,
 		height--
 	}
 
-	// Sort by time
-	sort.Sort(list)
+	// Sort by time. The network finds the median of three headers with this fixed sequence of
+	// compares and swaps, which doesn't leave headers with equal times in the same order as a sort.
+	if count == 3 {
+		if list[0].time > list[2].time {
+			list.Swap(0, 2)
+		}
+		if list[0].time > list[1].time {
+			list.Swap(0, 1)
+		}
+		if list[1].time > list[2].time {
+			list.Swap(1, 2)
+		}
+	} else {
+		sort.Sort(list)
+	}
 
 	// Get values from the middle item in the list.
 	result := list[count/2]
